@@ -141,7 +141,7 @@ func (l *Lab) Gen(r *rand.Rand, o LabOpts) *LabCase {
 	sort.Strings(tops)
 	cfgs := []cfgChoice{{}, {}, {}, {File: "custom"}, {File: "shared"}, {Ext: ".txt"}, {Dir: "snaps_rel"}, {Dir: l.AbsDir}, {Dir: l.AbsDir, File: "custom", Ext: ".json"},
 		// directories that are not in clean form (trailing separator, `/./`, doubled separator)
-		{Dir: l.AbsDir + "/"}, {Dir: l.AbsDir + "/./"}, {Dir: "snaps_rel/"}, {Dir: strings.Replace(l.AbsDir, "/abs_snaps", "//abs_snaps", 1)}}
+		{Dir: l.AbsDir + "/"}, {Dir: l.AbsDir + "/./"}, {Dir: "snaps_rel/"}, {Ext: ".golden.txt"}, {Ext: "_v2"}, {Ext: ".snapshot"}, {File: "custom", Ext: ".snap.json"}, {Dir: strings.Replace(l.AbsDir, "/abs_snaps", "//abs_snaps", 1)}}
 	var addNode func(name string, depth int)
 	addNode = func(name string, depth int) {
 		n := &Node{}
